@@ -2,6 +2,7 @@ package main
 
 import (
 	"math/big"
+	"strconv"
 )
 
 func init() {
@@ -29,5 +30,27 @@ func init() {
 	regSimple("encoding/json.Marshal", func(fr *frame, args []value) value {
 		fr.i.stub("encoding/json.Marshal returns an opaque token (used for log output only)")
 		return tuple{[]value{uint8('<'), uint8('j'), uint8('>')}, iface{}}
+	})
+}
+
+func init() {
+	// (*big.Int).UnmarshalText on concrete text is parsed by the host; symbolic text is outside
+	// what the engine models (callers bound their buffers so that amounts stay concrete).
+	regSimple("(*math/big.Int).UnmarshalText", func(fr *frame, args []value) value {
+		bs, _ := args[1].([]value)
+		raw := make([]byte, len(bs))
+		for k, b := range bs {
+			c, ok := b.(uint8)
+			if !ok {
+				unsupported("big.Int.UnmarshalText of symbolic text")
+			}
+			raw[k] = c
+		}
+		r := new(big.Int)
+		if err := r.UnmarshalText(raw); err != nil {
+			return fr.i.newError("math/big: cannot unmarshal " + strconv.Quote(string(raw)) + " into a *big.Int")
+		}
+		fr.i.bigSetC(args[0], r)
+		return iface{}
 	})
 }
